@@ -85,6 +85,10 @@ func c02ops() []c02op {
 		{"closure-then-shadowing-let-in-let", []int{mSeq}, toL, func(a []string, c int) string {
 			return f("(let [s %s g (keepfn! (fn [] s) s)] (let [s (conj s %d)] (list (g) s)))", a[0], c)
 		}, nil},
+		// an error object made from a bound map, then marshalled / caught and looked at
+		{"marshal-error-of-map", []int{mM}, same, func(a []string, c int) string {
+			return f("(do (try (hash-map (new-error %s)) (catch e 0)) (try (throw %s) (catch e (str e))) %s)", a[0], a[0], a[0])
+		}, nil},
 		{"map-rest-fn", []int{mSeq}, toL, func(a []string, c int) string { return f("(map (fn [& xs] (keep! xs) xs) %s)", a[0]) }, nil},
 		{"apply-rest-fn", []int{mSeq}, toL, func(a []string, c int) string { return f("(apply (fn [x & xs] (keep! xs) xs) %d %s)", c, a[0]) }, nil},
 		{"cons", []int{mSeq}, toL, func(a []string, c int) string { return f("(cons %d %s)", c, a[0]) }, nil},
@@ -411,7 +415,8 @@ func init() {
 			},
 		}
 		return &vf.Check{
-			ID: "C02", Level: "model_checking",
+			RacePass: c02RacePass,
+			ID:       "C02", Level: "model_checking",
 			Rule:        "explicit enumeration of all operation histories up to the depth bound on the real builtins (each history replayed on a fresh scope); after every step every earlier binding is re-read through env.Get and its canonical form must equal the form recorded when it was bound; non-trivial = every case (each expands to all last steps)",
 			Assumptions: []string{"operations outside the listed kinds and histories deeper than the bound", "values are compared by canonical printed structure (list/vector distinguished, map/set order removed)"},
 			Families:    []*vf.Family{fam},
